@@ -320,7 +320,7 @@ def unit_slot_init(ctx):
         if classes is not None:
             _log(ctx, "AmbientSlot::init path classes over the OnceLock: %s" % "; ".join(sc.describe_classes(classes)))
         shape = sorted(set(tuple(k for k, _ in c["ops"]) for c in classes)) if classes else []
-        obs = sc.structural(P, abs_)
+        obs = sc.structural(P, abs_, native_for)
         if classes is not None and shape != [("set",), ("set", "get")]:
             # the shape-specific structural obligation only applies to `set; get`: the generalised pair below replaces it
             obs = [o for o in obs if o.name != "E2cfg_init_one_set_then_get"]
@@ -333,3 +333,37 @@ def unit_slot_init(ctx):
     except Exception as e:
         _cfg_fail(ctx, "E2cfg_slot_init", "E2-cfg slot unit internal error: %s\n%s" % (e, traceback.format_exc()[-1500:]))
     _log(ctx, "slot init unit done in %.0fs" % (time.time() - t0))
+
+
+# ---------------------------------------------------------------- E2-cfg: HttpConnection::send keeps a sender only after a successful request (C12)
+
+def unit_otlp_http_connection(ctx):
+    from mir2smt import otlp_http_cfg_ob as oh, cfg_driver
+    t0 = time.time()
+    try:
+        u = _Unit(ctx, "otlp-http-cfg")
+        dump_dir = os.path.join(u.dir, "mir-passes")
+        # one rustc run: ordinary MIR of the crate (helpers, users of the sender slot) + the pre-coroutine bodies of `send`
+        mir, secs = oh.dump_mir_with_coroutines(u.tree, os.path.join(u.dir, "t-mir"), dump_dir,
+                                                log=os.path.join(u.dir, "mir-emitter_otlp.log"))
+        dumps = oh.coroutine_dumps(dump_dir)
+        _log(ctx, "MIR of emitter/otlp dumped in %.0fs (%d lines, %d pre-coroutine bodies)" % (secs, mir.count("\n"), len(dumps)))
+        P = Program(u.tree)
+        P.add_dump(mir, "emit_otlp")
+        A = oh.build(P, dumps)
+        _log(ctx, "HttpConnection::send async block (%s): %s; %d SMT lines" % (A.mir_path[-60:], A.stats(), len(A.S.lines)))
+        nat_box = {}
+
+        def native_for():
+            # built only if a counter-path has to be concretised (never on a tree where the obligation holds)
+            if "n" not in nat_box:
+                nat_box["n"] = u.native("otlphttp", [(oh.CRATE_DIR, [], False)], append=oh.APPEND)
+            return nat_box["n"]
+
+        cfg_driver.decide_cfg(ctx, oh.obligations(P, A, mir, native_for), u.dir, jobs=_jobs())
+    except (engine.EngineError, Unsupported, Inconclusive) as e:
+        _cfg_fail(ctx, "E2cfg_http_connection_replaced_after_failure", "E2-cfg otlp http unit: %s" % e)
+    except Exception as e:
+        _cfg_fail(ctx, "E2cfg_http_connection_replaced_after_failure",
+                  "E2-cfg otlp http unit internal error: %s\n%s" % (e, traceback.format_exc()[-1500:]))
+    _log(ctx, "otlp http connection unit done in %.0fs" % (time.time() - t0))
